@@ -460,7 +460,9 @@ def strip(prog, kinds):
 # ----------------------------------------------------------------------------
 EXPLICIT = ['enc', 'dec', 'head', 'blk']
 VARNAMES = ['w', 'v', 'count', 'mean']
-STATE_COLS = ['batch_stats', 'cache', 'counters']
+# 'stats' is a proper substring of 'batch_stats': string filters must compare
+# whole names
+STATE_COLS = ['batch_stats', 'cache', 'counters', 'stats']
 SOW_COLS = ['intermediates', 'aux']
 STREAMS = ['dropout', 'noise']
 
